@@ -2,10 +2,12 @@
    Property theorems only; each is closed by `exact` and followed by Print Assumptions.
    One theorem per syntactic freedom, at the level it acts on (token, line, or a pre-pass over the text);
    the model of the reader is Yanny/Parse.v (of the code with fixes/C01-*.diff applied). *)
+From Coq Require Import String.
 From Coq Require Import NArith ZArith List Bool.
 Import ListNotations.
 From PV Require Import Yanny.Bytes Yanny.BytesFacts Yanny.Types Yanny.Parse Yanny.Render
-  Yanny.TokenFacts Yanny.RowFacts Yanny.TypeFacts Yanny.DocFacts Yanny.LayoutFacts C02.Model C02.Proofs.
+  Yanny.TokenFacts Yanny.RowFacts Yanny.TypeFacts Yanny.DocFacts Yanny.LayoutFacts Yanny.ScanFacts Yanny.FileFacts
+  Yanny.RoundTrip Yanny.LayoutFile Yanny.LayoutRow Yanny.LayoutFile2 Yanny.Interleave C02.Model C02.Proofs.
 Open Scope N_scope.
 
 (* arbitrary runs of blanks / tabs between tokens *)
@@ -144,15 +146,101 @@ Theorem C02_rendered_row_is_core_line : forall name r,
 Proof. exact row_is_core_line. Qed.
 Print Assumptions C02_rendered_row_is_core_line.
 
+(* a data row in ANY admissible token layout -- arbitrary blank runs between tokens and inside array braces,
+   every string bare or double-quoted where its content allows, any letter case of the name -- is processed
+   exactly like the row of its cells *)
+Theorem C02_row_layout_independence : forall (sy : symtab) st name (cols : tcols) cells,
+  name <> [] -> forallb is_word name = true -> assoc (upper name) sy = Some cols ->
+  cells_ok cells = true ->
+  match cells with [] => cols = [] \/ True | gc :: cells' => lrow_fits cols ((@nil N, snd gc) :: cells') = true end ->
+  process_line sy st (lrow_core name cells)
+  = Some (mkst (st_pairs st) (assoc_app (upper name) (map (fun gc => cell_of (snd gc)) cells) (st_rows st))).
+Proof. exact lrow_roundtrip. Qed.
+Print Assumptions C02_row_layout_independence.
+
 (* layout_independence, PARTIAL.  Full statement (not proved as one theorem):
      forall d lay, doc_ok d -> layout_ok lay d -> parse (render_with lay d) = Some (lsem d).
-   Proved here: the line loop reaches the same state for every decoration of every line (indentation, trailing
-   blanks, trailing comments, CR) and every insertion of blank / comment lines.  Proved separately above: the
-   token-level freedoms (blank runs, quote forms, empty-string forms), case of the row name, interleaving,
-   continuation joining, CRLF translation, [n] / <n>.  Not composed into one file-level theorem: the freedoms
-   inside typedef blocks and the interaction of the pre-passes (continuation, typedef extraction) with the rest;
-   these are covered by the correspondence run only. *)
-Theorem C02_layout_independence_partial : forall Ds Ls, decorates Ds Ls ->
+   Proved at FILE level (C02_layout_independence_partial): for every document of the domain doc_ok, every
+   ordering of its data rows that keeps each table's rows in order (rows of different tables interleaved),
+   and every text obtained from that file by
+     - writing any data row in any admissible token layout (blank runs, bare / quoted strings, padding inside
+       array braces, any letter case of the table name),
+     - indentation, trailing blanks and a trailing comment on every keyword / data line,
+     - comment lines and blank lines inserted anywhere between the items (also around the typedef blocks),
+   the text-mode and the binary read return exactly the document's meaning; CRLF line ends read in text mode
+   change nothing (C02_crlf_file_independence).
+   NOT composed into the file-level theorem (proved at token / pre-pass level above, exercised by every run of
+   the correspondence): brace-wrapped strings and the { { } } form inside rows, continuation lines, [n] / <n>
+   and any other layout inside typedef blocks, char[] columns, typedefs and pairs in other positions. *)
+Theorem C02_layout_independence_partial : forall d tws trs Ds,
+  doc_ok d = true -> map fst tws = d_tables d -> tws_ok (d_enums d) tws ->
+  trs_ok d trs -> idec (sy_of (d_enums d) tws) Ds (items_gen d tws trs) ->
+  exists p, sem d = Some p /\ parse (items_text Ds) = Some p /\ parse_binary (items_text Ds) = Some p.
+Proof. exact layout_file_general. Qed.
+Print Assumptions C02_layout_independence_partial.
+
+(* rows of different tables interleaved, nothing else changed *)
+Theorem C02_interleaved_file : forall d tws trs,
+  doc_ok d = true -> map fst tws = d_tables d -> tws_ok (d_enums d) tws -> trs_ok d trs ->
+  exists p, sem d = Some p /\ parse (items_text (items_gen d tws trs)) = Some p
+            /\ parse_binary (items_text (items_gen d tws trs)) = Some p.
+Proof. exact interleaved_roundtrip. Qed.
+Print Assumptions C02_interleaved_file.
+
+(* the canonical ordering is an admissible one, and its item list is the written file *)
+Theorem C02_canonical_order_admissible : forall d, distinct (tnames d) = true -> trs_ok d (all_trs (d_tables d)).
+Proof. exact all_trs_ok. Qed.
+Print Assumptions C02_canonical_order_admissible.
+
+Theorem C02_canonical_items : forall d tws, items_of d tws = items_gen d tws (all_trs (d_tables d)).
+Proof. exact items_of_gen. Qed.
+Print Assumptions C02_canonical_items.
+
+(* decorations only (no change inside rows): the earlier, simpler statement *)
+Theorem C02_decorated_file : forall d tws Ds,
+  doc_ok d = true -> map fst tws = d_tables d -> tws_ok (d_enums d) tws ->
+  decorates_items Ds (items_of d tws) ->
+  exists p, sem d = Some p /\ parse (items_text Ds) = Some p /\ parse_binary (items_text Ds) = Some p.
+Proof. exact layout_file_independence. Qed.
+Print Assumptions C02_decorated_file.
+
+(* the undecorated list of items is the file the writer produces, so the theorem is about real files *)
+Theorem C02_canonical_items_are_the_written_file : forall d tws,
+  d_comments d <> [] -> forallb enum_ok (d_enums d) = true -> map fst tws = d_tables d -> tws_ok (d_enums d) tws ->
+  render_checked d = Some (items_text (items_of d tws)).
+Proof. exact render_items. Qed.
+Print Assumptions C02_canonical_items_are_the_written_file.
+
+Theorem C02_crlf_file_independence : forall s, mem CR s = false -> parse (crlf s) = parse s.
+Proof. exact crlf_file_independence. Qed.
+Print Assumptions C02_crlf_file_independence.
+
+(* the line loop alone: same state for every decoration of every line and every inserted blank / comment line *)
+Theorem C02_line_loop_layout_independence : forall Ds Ls, decorates Ds Ls ->
   forall sy st, process_lines sy st Ds = process_lines sy st Ls.
 Proof. exact decorated_lines_same_state. Qed.
-Print Assumptions C02_layout_independence_partial.
+Print Assumptions C02_line_loop_layout_independence.
+
+(* composition principle: every line-level freedom lifts to file level *)
+Theorem C02_layout_composition : forall d tws Ds,
+  doc_ok d = true -> map fst tws = d_tables d -> tws_ok (d_enums d) tws ->
+  Forall item_good Ds -> Ds <> [] ->
+  (forall kw, filter (item_is_td kw) Ds = filter (item_is_td kw) (items_of d tws)) ->
+  (forall st, process_lines (sy_of (d_enums d) tws) st (map item_line Ds)
+              = process_lines (sy_of (d_enums d) tws) st (map item_line (items_of d tws))) ->
+  exists p, sem d = Some p /\ parse (items_text Ds) = Some p /\ parse_binary (items_text Ds) = Some p.
+Proof. exact layout_composition. Qed.
+Print Assumptions C02_layout_composition.
+
+(* ---- non-vacuity: a concrete laid-out file (C02/Proofs.v: ex_doc, ex_items -- a comment line and a blank line
+   inserted, the data row indented, its name in lower case, its integer quoted, a trailing comment) satisfies every
+   hypothesis of C02_layout_independence_partial, and its parse is the document's meaning by computation ---- *)
+Example C02_example_in_domain : doc_ok ex_doc = true /\ map fst ex_tws = d_tables ex_doc.
+Proof. exact example_in_domain. Qed.
+Example C02_example_tws_ok : tws_ok (d_enums ex_doc) ex_tws.
+Proof. exact example_tws_ok. Qed.
+Example C02_example_layout : idec (sy_of (d_enums ex_doc) ex_tws) ex_items (items_gen ex_doc ex_tws ex_trs).
+Proof. exact example_layout. Qed.
+Example C02_example_reads_as_the_document :
+  match sem ex_doc with Some p => parse (items_text ex_items) = Some p | None => False end.
+Proof. exact example_reads_as_the_document. Qed.
